@@ -306,8 +306,10 @@ macro_rules! invert_native {
                 }
             }
             // row scalings by powers of two; the determinant is 2^(sum of exponents), exactly
-            let class = d.int(0, 4);
+            let class = d.int(0, 5);
             let total: i64 = match class {
+                // every entry tiny (all within the scalar's epsilon of zero), determinant far from underflow
+                5 => -(n as i64) * d.int(if std::mem::size_of::<F>() == 4 { 24 } else { 53 }, if std::mem::size_of::<F>() == 4 { 28 } else { 70 }),
                 0 | 1 => d.int(-40, 40),
                 2 => d.int($sub_lo, $sub_hi),
                 3 => d.int($under - 60, $under),
@@ -330,6 +332,11 @@ macro_rules! invert_native {
                     let det = m.determinant();
                     let inv = m.invert();
                     d.note("determinant()", &det);
+                    // small integers times powers of two: the Leibniz sum is exact, det = 2^total
+                    if class <= 1 || class == 5 {
+                        let want = (2.0 as F).powi(total as i32);
+                        ensure!(det == want, "determinant-native", "determinant() = {:e}, exact value 2^{} = {:e}", det, total, want);
+                    }
                     ensure!(inv.is_none() == (det == 0.0), "invert-none-iff-det-zero",
                         "invert() is {} but determinant() = {:e}", if inv.is_none() { "None" } else { "Some" }, det);
                     if let (Some(ni), true) = (inv, class <= 1) {
@@ -354,7 +361,9 @@ macro_rules! invert_native {
                     go!(mk_m4)
                 }
             };
-            let cls = if det == 0.0 {
+            let cls = if class == 5 {
+                "all-entries-tiny"
+            } else if det == 0.0 {
                 "determinant-underflowed-to-zero"
             } else if !det.is_finite() {
                 "determinant-overflowed"
@@ -408,7 +417,7 @@ pub fn property() -> Property {
     dim!(d4, "4");
     s.push(sc!("inverse_transform-Q", "Q", inverse_transform::<Q>, 3000, 200_000, 224, &[("both-invertible", 50), ("both-singular", 20), ("mixed", 50)], "all entries of both matrices non-zero", false));
     s.push(sc!("inverse_transform-Fp", "Fp", inverse_transform::<Fp>, 3000, 200_000, 224, &[("both-invertible", 50)], "all entries of both matrices non-zero", false));
-    const NAT: &[(&str, u32)] = &[("ordinary", 200), ("subnormal-determinant", 50), ("determinant-underflowed-to-zero", 50), ("huge-determinant", 50)];
+    const NAT: &[(&str, u32)] = &[("all-entries-tiny", 50), ("ordinary", 200), ("subnormal-determinant", 50), ("determinant-underflowed-to-zero", 50), ("huge-determinant", 50)];
     s.push(sc!("invert_native-f64", "f64", invert_native_f64, 6000, 400_000, 64, NAT, "every generated matrix; determinant classes ordinary / subnormal / underflowed to zero / huge required", false));
     s.push(sc!("invert_native-f32", "f32", invert_native_f32, 6000, 400_000, 64, NAT, "every generated matrix; determinant classes ordinary / subnormal / underflowed to zero / huge required", false));
     Property {
